@@ -86,6 +86,13 @@ def walks(ck, n, nwalks, steps, seed, kind="intdup", corrupt=None, job="c06_walk
     oracle, ro = gridoracle.run_oracle(job + "_oracle", tab, check_def=(n <= 3))
     ck.add_tlc("GridOracle N=%d D=2 G=5 (%s) for walks" % (n, kind), ro)
     data = gridoracle.data_from_tables(tab, outlier_prob=0.2)
+    if kind == "intbig":
+        # data points of very different magnitude (a large cluster beside single mutations): log-likelihoods around
+        # -4e5 and -2e5 for two of them; the exact oracle does not apply, the from-scratch rebuild is the reference
+        from phyclone.data.base import DataPoint
+        offs = {0: -4.0e5, n - 1: -2.0e5}
+        data = [DataPoint(dp.idx, np.ascontiguousarray(dp.value + offs.get(dp.idx, 0.0)), name=dp.name, outlier_prob=dp.outlier_prob, outlier_prob_not=dp.outlier_prob_not) for dp in data]
+        oracle = None
     rs = np.random.RandomState(seed + 99)
     _clear_array_caches()
     edges, issues = [], []
@@ -107,6 +114,93 @@ def walks(ck, n, nwalks, steps, seed, kind="intdup", corrupt=None, job="c06_walk
     ck.traces_validated += len(edges) - len(unmatched)
     ck.evaluations += len(edges)
     return edges, issues, unmatched
+
+
+def fft_walks(ck, seed, nwalks, steps):
+    """In-place walks on a fine grid (1000 points: sibling clones are convolved on the FFT path).  The incrementally
+    maintained arrays are snapshotted after every step and compared at the END with rebuilds made with cold memo tables,
+    so that the comparison neither disturbs nor depends on the tables' state during the history."""
+    import numpy as np
+    from .. import gridoracle
+    n, G = 4, 1000
+    rs0 = np.random.RandomState(seed + 5)
+    tab = rs0.randint(1, 4, size=(n, 1, G))
+    data = gridoracle.data_from_tables(tab, outlier_prob=0.2)
+    rs = np.random.RandomState(seed + 17)
+    _clear_array_caches()
+    snaps = []
+
+    def on_state(cur, sub, dst, act):
+        if len(snaps) < 400:
+            for t in (cur, sub):
+                try:
+                    key, conc = absstate.project(t, full=False)
+                except absstate.Inconsistent:
+                    continue
+                clades = list(conc["clade"].values())
+                if conc["names"] and len(set(clades)) == len(clades):
+                    arrs, rr, _ = treeadt.node_arrays(t)
+                    snaps.append((act, key, {c: a[1].copy() for c, a in arrs.items()}, rr.copy()))
+        return ()
+
+    # a fixed history first: three sibling clones (convolved pairwise, the pair result memoised), then edits that hit
+    # the memoised pair again inside new sibling sets - as SMC and the Gibbs moves do
+    from phyclone.tree import Tree
+    rs1 = np.random.RandomState(seed + 23)
+    tab7 = rs1.randint(1, 4, size=(7, 1, G))
+    data7 = gridoracle.data_from_tables(tab7, outlier_prob=0.2)
+
+    def snap(label, t):
+        key, conc = absstate.project(t, full=False)
+        arrs, rr, _ = treeadt.node_arrays(t)
+        snaps.append(({"name": label}, key, {c: a[1].copy() for c, a in arrs.items()}, rr.copy()))
+
+    t = Tree(data7[0].grid_size)
+    a = t.create_root_node(children=[], data=[data7[0]])
+    b = t.create_root_node(children=[], data=[data7[1]])
+    c = t.create_root_node(children=[], data=[data7[2]])
+    snap("three top-level clones", t)
+    t1 = t.copy()
+    t1.add_data_point_to_node(data7[3], a)
+    snap("data added to the first of three top-level clones", t1)
+    t2 = t1.copy()
+    top = t2.create_root_node(children=[a, b, c], data=[data7[4]])
+    snap("clone created above three top-level clones", t2)
+    t3 = t2.copy()
+    t3.add_data_point_to_node(data7[5], b)
+    snap("data added to one of three siblings", t3)
+    t4 = t3.copy()
+    t4.remove_data_point_from_node(data7[3], a)
+    t4.add_data_point_to_node(data7[3], c)
+    snap("data point moved between two of three siblings", t4)
+    t5 = t4.copy()
+    t5.add_data_point_to_node(data7[6], a)
+    snap("data added to another sibling", t5)
+    fixed = list(snaps)
+    del snaps[:]
+    nsteps = 0
+    for w in range(nwalks):
+        e, iss = treeadt.walk(data, list(range(n)), steps, rs, None, oracle=None, tol=1e-5, on_state=on_state)
+        nsteps += len(e)
+        for kind_, it in iss[:20]:
+            if kind_ in ("stale", "exception", "inconsistent"):
+                ck.violation("C06|fft|%s|%s" % (kind_, it["act"]["name"]), "%s in an in-place walk on a 1000-point grid after %s: %s" % (kind_, json.dumps(it["act"]), it["error"]), it)
+    bad = 0
+    for (act, key, arrs, rr), dset in [(x, data7) for x in fixed] + [(x, data) for x in snaps]:
+        _clear_array_caches()
+        fresh = absstate.build(key, dset)
+        farrs, frr, _ = treeadt.node_arrays(fresh)
+        dev = max([float(np.max(np.abs(arrs[c] - farrs[c][1]))) for c in arrs] + [float(np.max(np.abs(rr - frr)))])
+        ck.evaluations += 1
+        if not (dev <= 1e-5):
+            bad += 1
+            if bad <= 3:
+                ck.violation("C06|fft|stale_vs_cold_rebuild|%s" % act["name"], "on a 1000-point grid the arrays maintained through the edit history (last step %s) differ by %.3g from a rebuild of %s made with cold memo tables" % (
+                    json.dumps(act), dev, absstate.key_str(key)), {"act": act, "state": absstate.to_json(key)})
+    _clear_array_caches()
+    ck.traces_validated += nwalks
+    ck.extra["fft_walks"] = {"steps": nsteps, "snapshots": len(snaps), "many_children": sum(1 for _, k, _, _ in snaps if len([c for c in k[0] if not any(c < d for d in k[0])]) >= 3)}
+    ck.nontrivial("fft_walks")
 
 
 def run(corrupt=None):
@@ -133,8 +227,8 @@ def run(corrupt=None):
         for i in range(res["states"]):
             ck.nontrivial("%s:%d" % (kind, i))
     nw = 400 if ck.tier == "thorough" else 80
-    for n, kind in ((4, "intdup"),) + (((5, "intdup"), (4, "int")) if ck.tier == "thorough" else ()):
-        edges, issues, unmatched = walks(ck, n, nw, 60, ck.seed, kind=kind, corrupt=corrupt, job="c06_walk%d%s" % (n, kind))
+    for n, kind in ((4, "intdup"), (4, "intbig")) + (((5, "intdup"), (4, "int")) if ck.tier == "thorough" else ()):
+        edges, issues, unmatched = walks(ck, n, (nw if kind != "intbig" else nw // 2), 60, ck.seed, kind=kind, corrupt=corrupt, job="c06_walk%d%s" % (n, kind))
         for kind_, it in issues[:100]:
             if kind_ in ("stale", "exception", "inconsistent"):
                 ck.violation("C06|%s|%s" % (kind_, it["act"]["name"]), "%s in an in-place walk after %s: %s" % (kind_, json.dumps(it["act"]), it["error"]), it)
@@ -147,6 +241,7 @@ def run(corrupt=None):
         ck.extra["walks_n%d_%s" % (n, kind)] = {"steps": len(edges), "unmatched": len(unmatched), "issues": len(issues)}
         if edges:
             ck.sample({"walk_step": edges[-1]})
+    fft_walks(ck, ck.seed, (30 if ck.tier == "thorough" else 10), 40)
     ck.rule = ("all edges of the TreeADT grammar closure on 3 data points (outliers on) realised by the real Tree, each applied to a restored "
                "copy (copy / from_dict / pickled dict in rotation), for an integer-table and a real-valued data set; distinct_nontrivial = "
                "distinct real (cur, sub, mode) states reached")
